@@ -457,10 +457,10 @@ func sum(context Context, args ...Result) (Result, error) {
 		return nil, errQueryNonNodeset
 	}
 
-	sum := 0
+	sum := 0.0
 
 	for _, i := range nodeSet {
-		sum += int(NodeSet{i}.Number())
+		sum += NodeSet{i}.Number()
 	}
 
 	return Number(sum), nil
